@@ -46,7 +46,7 @@ def dispatch (line : String) : String :=
     | some "parse" => S09.runC09 fields obs
     | some "sel" => S18.runC18 fields obs
     | some "conv" | some "reshape" | some "toset" => runC12 fields obs
-    | some "crc" | some "dmg" | some "sweep" | some "rt" | some "instrs" => runC07 fields obs
+    | some "crc" | some "dmg" | some "sweep" | some "rt" | some "instrs" | some "load" => runC07 fields obs
     | _ => ("bad-proto", "bad-proto", "-")
   m ++ "\t" ++ v ++ "\t" ++ r
 
